@@ -123,58 +123,95 @@ Qed.
 Lemma head_of_clean head : ~ In 36 head -> head_of head = ([], head).
 Proof. intros H. unfold head_of. rewrite (split_last_absent 36 head H). reflexivity. Qed.
 
-(* ================================================================== (d) the template *)
-Lemma fmt1_dollar_template o :
-  fmt1 src_dollar_template o
-  = 36 :: 123 :: 104 :: 101 :: 97 :: 100 :: 125 :: (o ++ [36; 123; 116; 97; 105; 108; 125]).
-Proof. reflexivity. Qed.
-
-Lemma tpl_go_clean G NM o r : ~ In 36 o -> tpl_go G NM 0 (o ++ r) = o ++ tpl_go G NM 0 r.
-Proof.
-  induction o as [|c o IH]; intros H; [reflexivity|].
-  cbn [app tpl_go].
-  assert (E : (c =? 36) = false).
-  { apply N.eqb_neq. intros X. apply H. left. exact X. }
-  rewrite E. rewrite IH by (intros X; apply H; right; exact X). reflexivity.
-Qed.
-
-Lemma parse_usize_head : parse_usize (s2l "head") = None.
-Proof. reflexivity. Qed.
-Lemma parse_usize_tail : parse_usize (s2l "tail") = None.
-Proof. reflexivity. Qed.
-
-Lemma cap_ref_head G NM : NM (s2l "head") = Some 1 -> cap_ref G NM [104; 101; 97; 100] = G 1.
-Proof.
-  intros H. unfold cap_ref. change [104; 101; 97; 100] with (s2l "head").
-  rewrite parse_usize_head, H. reflexivity.
-Qed.
-Lemma cap_ref_tail G NM : NM (s2l "tail") = Some 2 -> cap_ref G NM [116; 97; 105; 108] = G 2.
-Proof.
-  intros H. unfold cap_ref. change [116; 97; 105; 108] with (s2l "tail").
-  rewrite parse_usize_tail, H. reflexivity.
-Qed.
-
-Lemma tpl_dollar G NM o :
-  NM (s2l "head") = Some 1 -> NM (s2l "tail") = Some 2 -> ~ In 36 o ->
-  expand_template G NM (fmt1 src_dollar_template o) = G 1 ++ o ++ G 2.
-Proof.
-  intros Hh Ht Ho. rewrite fmt1_dollar_template. unfold expand_template.
-  (* the leading reference *)
-  change (tpl_go G NM 0 (36 :: 123 :: 104 :: 101 :: 97 :: 100 :: 125 :: (o ++ [36; 123; 116; 97; 105; 108; 125])))
-    with (cap_ref G NM [104; 101; 97; 100] ++ tpl_go G NM 0 (o ++ [36; 123; 116; 97; 105; 108; 125])).
-  rewrite cap_ref_head by exact Hh.
-  rewrite tpl_go_clean by exact Ho.
-  change (tpl_go G NM 0 [36; 123; 116; 97; 105; 108; 125]) with (cap_ref G NM [116; 97; 105; 108] ++ []).
-  rewrite cap_ref_tail by exact Ht. rewrite app_nil_r. reflexivity.
-Qed.
+(* ================================================================== (d) the splice *)
+(** since 5e2d7b7 the replacer concatenates head group, output and tail group: the output is text,
+    whatever it contains *)
+Lemma dollar_splice_gen before cmd tail post o pre head :
+  head_of before = (pre, head) ->
+  dollar_splice before cmd tail post o = pre ++ (head ++ o ++ tail) ++ post.
+Proof. intros Hh. unfold dollar_splice. rewrite Hh. reflexivity. Qed.
 
 Lemma dollar_splice_clean head cmd tail o :
-  ~ In 36 head -> ~ In 36 o ->
+  ~ In 36 head ->
   dollar_splice head cmd tail [] o = head ++ o ++ tail.
 Proof.
-  intros Hh Ho. unfold dollar_splice. rewrite (head_of_clean head Hh). cbv zeta.
-  rewrite tpl_dollar; [|reflexivity|reflexivity|exact Ho].
-  cbn [N.eqb Pos.eqb app]. rewrite app_nil_r. reflexivity.
+  intros Hh. rewrite (dollar_splice_gen head cmd tail [] o [] head (head_of_clean head Hh)).
+  cbn [app]. rewrite app_nil_r. reflexivity.
+Qed.
+
+(* ================================================================== the dollar-paren sequence *)
+(** a match of the finder pattern contains the two-character sequence dollar, open paren *)
+Fixpoint has_dollar_paren (s : str) : bool :=
+  match s with
+  | a :: ((b :: _) as r) => ((a =? 36) && (b =? 40)) || has_dollar_paren r
+  | _ => false
+  end.
+
+Lemma has_dollar_paren_cons2 (a b : N) (s : list N) :
+  has_dollar_paren (a :: b :: s) = ((a =? 36) && (b =? 40)) || has_dollar_paren (b :: s).
+Proof. reflexivity. Qed.
+
+Lemma has_dollar_paren_app a b : has_dollar_paren (a ++ 36 :: 40 :: b) = true.
+Proof.
+  induction a as [|x a IH].
+  - reflexivity.
+  - cbn [app]. destruct (a ++ 36 :: 40 :: b) as [|c l] eqn:E.
+    + destruct a; discriminate.
+    + rewrite has_dollar_paren_cons2. rewrite IH. apply orb_true_r.
+Qed.
+
+Lemma has_dollar_paren_false_neq s :
+  has_dollar_paren s = false -> forall a b, s <> a ++ 36 :: 40 :: b.
+Proof. intros H a b E. subst s. rewrite has_dollar_paren_app in H. discriminate. Qed.
+
+Lemma in_cs_single (c x : N) : in_cs false [(c, c)] x = true -> x = c.
+Proof.
+  unfold in_cs. cbn [existsb fst snd]. rewrite xorb_false_l, orb_false_r. intros H.
+  apply andb_true_iff in H as [A B]. apply N.leb_le in A, B. lia.
+Qed.
+
+Lemma chr_single_inv (c : N) m : Matches (Chr false [(c, c)]) m -> m = [c].
+Proof. intros H. inversion H; subst. f_equal. apply in_cs_single. assumption. Qed.
+
+Lemma dollar_cmd_search_inv s :
+  rx_search rx_dollar_cmd s = true -> exists a b, s = a ++ 36 :: 40 :: b.
+Proof.
+  intros H. unfold rx_search in H. apply matchb_spec in H.
+  unfold rx_full, rx_dollar_cmd in H. cbn [rx_ab rx_ae rx_re] in H.
+  apply cat_inv in H as (s1 & s2 & -> & _ & H).
+  apply cat_inv in H as (s3 & s4 & -> & H & _).
+  apply cat_inv in H as (d & r & -> & Hd & H).
+  apply cat_inv in H as (p & r' & -> & Hp & _).
+  apply chr_single_inv in Hd. apply chr_single_inv in Hp. subst d p.
+  exists s1, (r' ++ s4). cbn [app]. reflexivity.
+Qed.
+
+Lemma should_do_needs_dollar_paren s : has_dollar_paren s = false -> should_do_dollar s = false.
+Proof.
+  intros H. unfold should_do_dollar.
+  destruct (rx_search rx_dollar_cmd s) eqn:E; [|reflexivity].
+  apply dollar_cmd_search_inv in E as (a & b & ->).
+  rewrite has_dollar_paren_app in H. discriminate.
+Qed.
+
+Lemma has_dollar_paren_no_dollar s : ~ In 36 s -> has_dollar_paren s = false.
+Proof.
+  induction s as [|a s IH]; intros H; [reflexivity|].
+  destruct s as [|b s]; [reflexivity|].
+  rewrite has_dollar_paren_cons2.
+  rewrite IH by (intros X; apply H; right; exact X).
+  assert (E : (a =? 36) = false) by (apply N.eqb_neq; intros X; apply H; left; exact X).
+  rewrite E. reflexivity.
+Qed.
+
+Lemma has_dollar_paren_no_paren s : ~ In 40 s -> has_dollar_paren s = false.
+Proof.
+  induction s as [|a s IH]; intros H; [reflexivity|].
+  destruct s as [|b s]; [reflexivity|].
+  rewrite has_dollar_paren_cons2.
+  rewrite IH by (intros X; apply H; right; exact X).
+  assert (E : (b =? 40) = false) by (apply N.eqb_neq; intros X; apply H; right; left; exact X).
+  rewrite E, andb_false_r. reflexivity.
 Qed.
 
 (* ================================================================== the loop *)
@@ -191,24 +228,23 @@ Lemma dollar_loop_S f W line log :
          end.
 Proof. reflexivity. Qed.
 
+(** one substitution: the trimmed output is spliced as it is; dollars of the output ($1, ${x}, $name)
+    and of the tail are kept; the only thing asked of the result is that it has no dollar-paren
+    sequence (which the loop would run again) *)
 Theorem dollar_loop_splices : forall W head cmd tail f,
-  ~ In 36 head -> ~ In 36 tail -> ~ In 10 tail -> ~ In 41 tail ->
-  cmd <> [] -> ~ In 41 cmd -> ~ In 10 cmd ->
+  ~ In 36 head -> ~ In 10 tail -> ~ In 41 tail -> cmd <> [] -> ~ In 41 cmd -> ~ In 10 cmd ->
   (~ In 61 (head ++ [36; 40] ++ cmd ++ [41] ++ tail) \/ ~ In 39 (head ++ [36; 40] ++ cmd ++ [41] ++ tail)) ->
-  ~ In 36 (trim (oracle_out W cmd)) ->
+  has_dollar_paren (head ++ trim (oracle_out W cmd) ++ tail) = false ->
   dollar_loop (S (S f)) W (head ++ [36; 40] ++ cmd ++ [41] ++ tail) []
   = Ok (Some (head ++ trim (oracle_out W cmd) ++ tail), [cmd]).
 Proof.
-  intros W head cmd tail f Hh Ht36 Ht10 Ht41 Hne Hc41 Hc10 Hx Ho.
+  intros W head cmd tail f Hh Ht10 Ht41 Hne Hc41 Hc10 Hx Ho.
   rewrite dollar_loop_S.
   rewrite (should_do_true head cmd tail Hne Hc41 Hx). cbn [negb].
   rewrite line_norm. rewrite find_dollar_mid by assumption.
-  rewrite dollar_splice_clean by assumption.
+  rewrite dollar_splice_clean by exact Hh.
   rewrite dollar_loop_S.
-  rewrite should_do_no_dollar.
-  - reflexivity.
-  - intros X. apply in_app_or in X as [X|X]; [tauto|].
-    apply in_app_or in X as [X|X]; tauto.
+  erewrite should_do_needs_dollar_paren by exact Ho. reflexivity.
 Qed.
 
 Lemma trim_nil : trim [] = [].
@@ -223,8 +259,10 @@ Theorem dollar_loop_unplannable : forall W head cmd tail f,
 Proof.
   intros W head cmd tail f Hh Ht36 Ht10 Ht41 Hne Hc41 Hc10 Hx Hrun.
   assert (E : oracle_out W cmd = []) by (unfold oracle_out; rewrite Hrun; reflexivity).
-  rewrite (dollar_loop_splices W head cmd tail f) by (try assumption; rewrite E, trim_nil; intros []).
-  rewrite E, trim_nil. reflexivity.
+  rewrite (dollar_loop_splices W head cmd tail f); try assumption.
+  - rewrite E, trim_nil. reflexivity.
+  - rewrite E, trim_nil. apply has_dollar_paren_no_dollar.
+    intros X. apply in_app_or in X as [X|X]; tauto.
 Qed.
 
 (* ================================================================== termination *)
@@ -287,6 +325,15 @@ Proof.
   - reflexivity.
 Qed.
 
+(** the splice for EVERY position of the dollar-paren, in one piece *)
+Lemma dollar_splice_eq before cmd tail post o :
+  dollar_splice before cmd tail post o = before ++ o ++ tail ++ post.
+Proof.
+  destruct (head_of before) as [pre head] eqn:E.
+  rewrite (dollar_splice_gen before cmd tail post o pre head E).
+  apply head_of_app in E. subst before. rewrite <- !app_assoc. reflexivity.
+Qed.
+
 Lemma split_last_rest c s a b : split_last c s = Some (a, b) -> ~ In c b.
 Proof.
   revert a b. induction s as [|x s IH]; intros a b H; [discriminate|].
@@ -311,16 +358,6 @@ Proof.
     + exfalso. apply (IH X). reflexivity.
 Qed.
 
-(** the splice for EVERY position of the dollar-paren (the tail may contain further dollars) *)
-Lemma dollar_splice_gen before cmd tail post o pre head :
-  head_of before = (pre, head) -> ~ In 36 o ->
-  dollar_splice before cmd tail post o = pre ++ (head ++ o ++ tail) ++ post.
-Proof.
-  intros Hh Ho. unfold dollar_splice. rewrite Hh. cbv zeta.
-  rewrite tpl_dollar; [|reflexivity|reflexivity|exact Ho].
-  cbn [N.eqb Pos.eqb]. reflexivity.
-Qed.
-
 Notation cnt s := (count_occ N.eq_dec s 36).
 
 Lemma cnt_zero s : ~ In 36 s -> cnt s = 0%nat.
@@ -332,9 +369,9 @@ Lemma dollar_splice_count line before cmd tail post o :
 Proof.
   intros Hf Ho. apply find_dollar_app in Hf. subst line.
   destruct (head_of before) as [pre head] eqn:Hh.
-  rewrite (dollar_splice_gen before cmd tail post o pre head Hh Ho).
+  rewrite (dollar_splice_gen before cmd tail post o pre head Hh).
   apply head_of_app in Hh. subst before.
-  repeat rewrite count_occ_app. rewrite (cnt_zero o Ho).
+  repeat rewrite count_occ_app. pose proof (cnt_zero o Ho) as Z.
   change (cnt [36; 40]) with 1%nat. change (cnt [41]) with 0%nat. unfold char in *. lia.
 Qed.
 
@@ -433,81 +470,7 @@ Proof.
     cbn [is_empty]. rewrite <- !app_assoc. reflexivity.
 Qed.
 
-(* ================================================================== the dollar-paren sequence *)
-(** a match of the finder pattern contains the two-character sequence dollar, open paren *)
-Fixpoint has_dollar_paren (s : str) : bool :=
-  match s with
-  | a :: ((b :: _) as r) => ((a =? 36) && (b =? 40)) || has_dollar_paren r
-  | _ => false
-  end.
-
-Lemma has_dollar_paren_cons2 (a b : N) (s : list N) :
-  has_dollar_paren (a :: b :: s) = ((a =? 36) && (b =? 40)) || has_dollar_paren (b :: s).
-Proof. reflexivity. Qed.
-
-Lemma has_dollar_paren_app a b : has_dollar_paren (a ++ 36 :: 40 :: b) = true.
-Proof.
-  induction a as [|x a IH].
-  - reflexivity.
-  - cbn [app]. destruct (a ++ 36 :: 40 :: b) as [|c l] eqn:E.
-    + destruct a; discriminate.
-    + rewrite has_dollar_paren_cons2. rewrite IH. apply orb_true_r.
-Qed.
-
-Lemma has_dollar_paren_false_neq s :
-  has_dollar_paren s = false -> forall a b, s <> a ++ 36 :: 40 :: b.
-Proof. intros H a b E. subst s. rewrite has_dollar_paren_app in H. discriminate. Qed.
-
-Lemma in_cs_single (c x : N) : in_cs false [(c, c)] x = true -> x = c.
-Proof.
-  unfold in_cs. cbn [existsb fst snd]. rewrite xorb_false_l, orb_false_r. intros H.
-  apply andb_true_iff in H as [A B]. apply N.leb_le in A, B. lia.
-Qed.
-
-Lemma chr_single_inv (c : N) m : Matches (Chr false [(c, c)]) m -> m = [c].
-Proof. intros H. inversion H; subst. f_equal. apply in_cs_single. assumption. Qed.
-
-Lemma dollar_cmd_search_inv s :
-  rx_search rx_dollar_cmd s = true -> exists a b, s = a ++ 36 :: 40 :: b.
-Proof.
-  intros H. unfold rx_search in H. apply matchb_spec in H.
-  unfold rx_full, rx_dollar_cmd in H. cbn [rx_ab rx_ae rx_re] in H.
-  apply cat_inv in H as (s1 & s2 & -> & _ & H).
-  apply cat_inv in H as (s3 & s4 & -> & H & _).
-  apply cat_inv in H as (d & r & -> & Hd & H).
-  apply cat_inv in H as (p & r' & -> & Hp & _).
-  apply chr_single_inv in Hd. apply chr_single_inv in Hp. subst d p.
-  exists s1, (r' ++ s4). cbn [app]. reflexivity.
-Qed.
-
-Lemma should_do_needs_dollar_paren s : has_dollar_paren s = false -> should_do_dollar s = false.
-Proof.
-  intros H. unfold should_do_dollar.
-  destruct (rx_search rx_dollar_cmd s) eqn:E; [|reflexivity].
-  apply dollar_cmd_search_inv in E as (a & b & ->).
-  rewrite has_dollar_paren_app in H. discriminate.
-Qed.
-
-Lemma has_dollar_paren_no_dollar s : ~ In 36 s -> has_dollar_paren s = false.
-Proof.
-  induction s as [|a s IH]; intros H; [reflexivity|].
-  destruct s as [|b s]; [reflexivity|].
-  rewrite has_dollar_paren_cons2.
-  rewrite IH by (intros X; apply H; right; exact X).
-  assert (E : (a =? 36) = false) by (apply N.eqb_neq; intros X; apply H; left; exact X).
-  rewrite E. reflexivity.
-Qed.
-
-Lemma has_dollar_paren_no_paren s : ~ In 40 s -> has_dollar_paren s = false.
-Proof.
-  induction s as [|a s IH]; intros H; [reflexivity|].
-  destruct s as [|b s]; [reflexivity|].
-  rewrite has_dollar_paren_cons2.
-  rewrite IH by (intros X; apply H; right; exact X).
-  assert (E : (b =? 40) = false) by (apply N.eqb_neq; intros X; apply H; right; left; exact X).
-  rewrite E, andb_false_r. reflexivity.
-Qed.
-
+Print Assumptions dollar_splice_eq.
 Print Assumptions dollar_loop_splices.
 Print Assumptions dollar_loop_unplannable.
 Print Assumptions dollar_loop_terminates.
